@@ -456,16 +456,18 @@ class StmtMixin:
         key, spec = self.loop_spec(node)
         st.snapshot('pre' + key)
         self.check_invs(st, key, spec, 'inv-init', node)
-        self.havoc_loop(node, st, spec)
+        mods = self.havoc_loop(node, st, spec)
         self.assume_invs(st, spec)
         st.path.append(key)
         out = []
+        head = st.copy()
 
         def after(s, c):
             res = []
             for s2, taken in self.branch(s, self.truth(c, s), 'while@%s' % node.lineno):
                 if taken:
                     for s3, kind, val in self.exec_block(node.body, s2):
+                        self.frame_check(head, s3, mods, node)
                         if kind in ('normal', 'continue'):
                             s3.path.append('back')
                             self.check_invs(s3, key, spec, 'inv-pres', node)
@@ -500,7 +502,10 @@ class StmtMixin:
             s.env['_it%s' % key[5:]] = L
             s.env['_it'] = L
             self.check_invs(s, key, spec, 'inv-init', node)
-            self.havoc_loop(node, s, spec)
+            mods = self.havoc_loop(node, s, spec)
+            for n in ast.walk(node.target):
+                if isinstance(n, ast.Name):
+                    mods[0].add(n.id)
             i = z3.Int(fresh_name('idx'))
             s.assume(z3.And(0 <= i, i <= h.n))
             s.env[idx_name] = VInt(i)
@@ -508,6 +513,7 @@ class StmtMixin:
             self.assume_invs(s, spec)
             s.path.append(key)
             res = []
+            head = s.copy()
             if h.et is None:
                 branches = [(s, False)]
             else:
@@ -516,6 +522,7 @@ class StmtMixin:
                 if taken:
                     self.bind_for_target(node.target, from_z3(z3.Select(h.arr, i), h.et), s2)
                     for s3, kind, val in self.exec_block(node.body, s2):
+                        self.frame_check(head, s3, mods, node)
                         if kind in ('normal', 'continue'):
                             s3.env[idx_name] = VInt(i + 1)
                             s3.env['_i'] = VInt(i + 1)
@@ -574,6 +581,10 @@ class StmtMixin:
                     names.add(n.name)
                 elif isinstance(n, ast.Call):
                     self.mod_call(n, st, mods, depth)
+                elif isinstance(n, ast.Attribute) and n.attr in MUTATORS:
+                    base = self.resolve_static(n.value, st)      # e.g. ``store = unselected.append``
+                    if isinstance(base, VRef):
+                        rids.add(base.rid)
 
     def mod_target(self, t, st, mods):
         names, rids, fields, ghosts = mods
@@ -604,8 +615,8 @@ class StmtMixin:
                 rids.add(base.rid)
         text = ast.unparse(f)
         rule = self.find_rule(text)
-        if isinstance(rule, dict):
-            for m in rule.get('modifies', []):
+        if isinstance(rule, dict) or (callable(rule) and hasattr(rule, 'modifies')):
+            for m in (rule.get('modifies', []) if isinstance(rule, dict) else rule.modifies):
                 self.mod_entry(m, n, None, st, mods)
             return
         callee = None
@@ -704,6 +715,34 @@ class StmtMixin:
         for g in sorted(ghosts):
             if g in st.ghost:
                 st.ghost[g] = self.havoc_val(st.ghost[g], 'G_' + g, st)
+        return (names, rids, fields, ghosts)
+
+    def frame_check(self, head, end, mods, node):
+        """soundness net: everything a loop body path changed must have been havocked at the loop head."""
+        names, rids, fields, ghosts = mods
+        for rid, h in head.heap.items():
+            h2 = end.heap.get(rid)
+            if h2 is h or h2 is None:
+                continue
+            if isinstance(h, HRec):
+                for a, v in h.fields.items():
+                    if h2.fields.get(a) is not v and (rid, a) not in fields:
+                        raise Unsupported("loop at line %s changes attribute %s outside its havoc set" % (node.lineno, a))
+                for a, v in h.present.items():
+                    if h2.present.get(a) is not v and (rid, a) not in fields:
+                        raise Unsupported("loop at line %s changes presence of %s outside its havoc set" % (node.lineno, a))
+            elif rid not in rids:
+                raise Unsupported("loop at line %s mutates a container outside its havoc set (aliasing?)" % node.lineno)
+        for fid, fr in head.frames.items():
+            fr2 = end.frames.get(fid, {})
+            for name, v in fr.items():
+                if name.startswith('_') or name == '__parent__':
+                    continue
+                if fr2.get(name) is not v and name not in names:
+                    raise Unsupported("loop at line %s rebinds %s outside its havoc set" % (node.lineno, name))
+        for g, v in head.ghost.items():
+            if end.ghost.get(g) is not v and g not in ghosts and g != '__yield__':
+                raise Unsupported("loop at line %s changes ghost %s outside its havoc set" % (node.lineno, g))
 
     def havoc_val(self, v, name, st):
         if isinstance(v, VRef):
